@@ -3,6 +3,7 @@
 
 mod arena;
 mod bytecheck;
+mod casecheck;
 mod alloccheck;
 mod ctx;
 mod stepcheck;
@@ -139,6 +140,16 @@ fn main() {
         }
         "threads" => {
             let f = threadcheck::c15(&c);
+            c.finish(f);
+        }
+        "gen-threads" => {
+            threadcheck::gen_threads(&c);
+        }
+        "gen-cases" => {
+            casecheck::gen_cases(&c);
+        }
+        "judge-cases" => {
+            let f = casecheck::judge_cases(&c);
             c.finish(f);
         }
         "replay" => {
